@@ -62,6 +62,7 @@ def tasks(tier):
     for fn in ('FIM_uncert', 'GIM_uncert', 'LRT_adjust', 'Wald_stat', 'score_stat'):
         ts.append(Task('props.C19:ob_multinom_wiring', name='C19/multinom.' + fn, fname=fn, timeout=120))
     ts.append(Task('props.C19:ob_godambe_assembly', name='C19/get_godambe.assembly', timeout=120))
+    ts.append(Task('props.C19:ob_statistics', name='C19/statistics.formulas', timeout=120))
     from vf.helpers import bounded_tasks
     ts += bounded_tasks('C19', tier)
     return ts
@@ -498,6 +499,63 @@ def ob_godambe_assembly():
         out.append(struct(oid + '.G', bool(okG), 'G = dot(dot(H, inv(J)), H)', fn))
         return out
     return go()
+
+
+def ob_statistics():
+    """What the three test statistics do with (GIM, H, J, cU) returned by get_godambe (kept abstract):
+       LRT_adjust = len(nested)/trace(dot(J, inv(H)));  Wald = d' GIM d (adjusted), d' H d (original), d = full_params - p_nested;
+       score = cU' inv(J) cU (adjusted), cU' inv(H) cU (original)."""
+    fn0 = 'dadi/Godambe.py::'
+    out = []
+    for fname in ('LRT_adjust', 'Wald_stat', 'score_stat'):
+        oid = 'C19/Godambe.py:%s/formula' % fname
+        fn = fn0 + fname
+        try:
+            ex = Executor()
+            f = ex.func(FILE, fname)
+
+            def hook(ex_, fref, a, kw, ctx):
+                if isinstance(fref, FuncRef) and fref.qualname == 'get_godambe':
+                    t = Tm('godambe')
+                    t.attrs['__items__'] = [Tm('GIM'), Tm('H'), Tm('J'), Tm('cU')]
+                    t.attrs['__len__'] = 4
+                    return t
+                return NotImplemented
+            ex.abstract_hook = hook
+            fm = PyFn(lambda p, ns, pts: Tm('model', ns, pts), 'func')
+            data = Tm('data')
+            p0 = VList(reals('p', 3))
+            nested = VList([0, 2])
+            args = dict(LRT_adjust=[fm, Tm('pts'), Tm('boots'), p0, data, nested],
+                        Wald_stat=[fm, Tm('pts'), Tm('boots'), p0, data, nested, VList(reals('full', 2), 'ndarray')],
+                        score_stat=[fm, Tm('pts'), Tm('boots'), p0, data, nested])[fname]
+            kw = dict(multinom=False)
+            if fname != 'LRT_adjust':
+                kw['adj_and_org'] = True
+            paths = ex.explore(lambda e: e.apply(f.node, None, f.mod, args, kw, fname))
+            rets = [p for p in paths if p.outcome == 'return']
+            if len(rets) != 1:
+                out.append(struct(oid, False, 'expected one returning path: %r' % paths[:2], fn, undecided=True))
+                continue
+            s = vrepr(rets[0].value).replace('lib:numpy.', '').replace('(lib:numpy)', '').replace('call:attr:', '').replace('call:', '')
+            if fname == 'LRT_adjust':
+                ok = s == 'op:Div(2, trace(dot(J, inv(attr:linalg)(H))))' or s == 'op:Div(2, trace(dot(J, inv(linalg)(H))))' or ('trace(dot(J, ' in s and 'inv' in s and s.startswith('op:Div(2, ') and s.count('H') == 1)
+                what = 'len(nested_indices)/trace(dot(J, inv(H)))'
+            elif fname == 'Wald_stat':
+                adj, org = (vrepr(x) for x in rets[0].value)
+                dvec = '[full0 + -1*p0, full1 + -1*p2]'
+                ok = adj.count('GIM') == 1 and org.count('H') >= 1 and 'GIM' not in org and adj.count('transpose') == 1 and adj.count('dot') == 2 and adj.count(dvec) == 2 and org.count(dvec) == 2
+                what = "(d' GIM d, d' H d) with d = full_params - p_nested"
+                s = adj[:120]
+            else:
+                adj, org = (vrepr(x) for x in rets[0].value)
+                ok = 'inv' in adj and 'J' in adj and 'H' not in adj.replace('cU', '') and 'inv' in org and 'H' in org and 'J' not in org and adj.count('cU') == 2 and org.count('cU') == 2
+                what = "(cU' inv(J) cU, cU' inv(H) cU)"
+                s = adj[:120]
+            out.append(struct(oid, bool(ok), '%s: %s' % (what, s[:160]), fn, finding_key='C19/%s/formula' % fname))
+        except Unsupported as e:
+            out.append(R(oid, 'proof', 'undecided', detail=str(e), func=fn))
+    return out
 
 
 MANIFEST_ENTRY = dict(
